@@ -1,5 +1,5 @@
 # replay of a bounded stand-in violation (C12): re-run native/c12_device.py
 import sys
-print("a source with squeezing phase 0.3 not offered by the device was accepted for the device: [('S2gate', [0.7, 0.3]), ('S2gate', [0.7, 0.0])]")
+print('Device.validate_parameters(s=[[0, 0.3], [0.5643]]) accepted the array; allowed values are [0, 0.5643, 1.0]')
 print('REPLAY-VIOLATION')
 sys.exit(1)
